@@ -28,49 +28,3 @@ proof fn lemma_flat_len(s: Seq<Sweep>)
     }
 }
 
-// ---- assumed std contracts used by Sweep::merge (listed as assumptions in the evidence) ----
-
-// the element sequence an IntoIterator yields; for Vec it is the vector's contents in order
-pub uninterp spec fn iter_seq<I: IntoIterator>(i: I) -> Seq<I::Item>;
-pub broadcast axiom fn axiom_iter_seq_vec<T>(v: Vec<T>) ensures #[trigger] iter_seq(v) == v@;
-
-// Vec::extend appends the iterator's elements in order
-pub assume_specification<T, A: core::alloc::Allocator, I: IntoIterator<Item = T>>[ <Vec<T, A> as Extend<T>>::extend ](v: &mut Vec<T, A>, iter: I)
-    ensures final(v)@ == old(v)@ + iter_seq(iter);
-
-pub open spec fn pair_hint<T>(a: T, b: T) -> bool { true }
-// the total order `Ord` gives a key type; for u16 it is <=
-pub uninterp spec fn key_le<K>(a: K, b: K) -> bool;
-pub broadcast axiom fn axiom_key_le_u16(a: u16, b: u16) ensures #[trigger] key_le(a, b) == (a <= b);
-
-// b is a rearrangement of a: b[i] == a[p[i]] with p injective and in range
-pub open spec fn is_perm_of<T>(a: Seq<T>, b: Seq<T>, p: Seq<int>) -> bool {
-    &&& p.len() == a.len() && b.len() == a.len()
-    &&& forall|i: int| 0 <= i < p.len() ==> 0 <= #[trigger] p[i] < a.len()
-    &&& forall|i: int, j: int| 0 <= i < j < p.len() ==> #[trigger] p[i] != #[trigger] p[j]
-    &&& forall|i: int| 0 <= i < b.len() ==> #[trigger] b[i] == a[p[i]]
-}
-
-// slice::sort_by_key is a *stable* sort by the key the closure returns
-pub assume_specification<T, K: Ord, F: FnMut(&T) -> K>[ <[T]>::sort_by_key ](s: &mut [T], f: F)
-    requires forall|x: &T| #[trigger] f.requires((x,)),
-    ensures
-        exists|p: Seq<int>| {
-            &&& #[trigger] is_perm_of(old(s)@, final(s)@, p)
-            &&& forall|i: int, j: int| 0 <= i < j < final(s)@.len() ==> pair_hint(#[trigger] final(s)@[i], #[trigger] final(s)@[j]) && exists|ki: K, kj: K| {
-                    &&& #[trigger] f.ensures((&final(s)@[i],), ki) && #[trigger] f.ensures((&final(s)@[j],), kj)
-                    &&& key_le(ki, kj)
-                    &&& (ki == kj ==> p[i] < p[j])
-                }
-        }
-;
-
-// C09 merge clause, from the property text: `out` is exactly the union of a then b, ordered by azimuth
-// number, ties kept in first(a)-then-second(b) order (p indexes into a + b)
-spec fn merged(a: Seq<Radial>, b: Seq<Radial>, out: Seq<Radial>) -> bool {
-    exists|p: Seq<int>| {
-        &&& #[trigger] is_perm_of(a + b, out, p)
-        &&& forall|i: int, j: int| 0 <= i < j < out.len() ==> (#[trigger] out[i]).azimuth_number <= (#[trigger] out[j]).azimuth_number
-        &&& forall|i: int, j: int| 0 <= i < j < out.len() && out[i].azimuth_number == out[j].azimuth_number ==> #[trigger] p[i] < #[trigger] p[j]
-    }
-}
